@@ -132,7 +132,7 @@ def run_check(pid: str, tier: str, seed: int) -> int:
     known = {}
     known_rx = []
     for f in kf.get("findings", []):
-        if f["property"] == pid:
+        if f["property"] == pid or pid in f.get("also_in", []):
             for c in f.get("classes", []):
                 known[c] = f
             for rx in f.get("class_regex", []):
@@ -192,7 +192,7 @@ def run_check(pid: str, tier: str, seed: int) -> int:
             return 2
     stale = []
     for f in kf.get("findings", []):
-        if f["property"] != pid:
+        if f["property"] != pid and pid not in f.get("also_in", []):
             continue
         if f["id"] in matched:
             print(f"KNOWN-FINDING: property={pid} {f['what']} [{f['id']}; {matched[f['id']][1]} occurrence(s)]")
